@@ -294,6 +294,16 @@ def replay_gen(kind, hint_src, conf_src, obj_src, r, extra=None):
         v, e = real_verdict(obj, hint, conf, r)
         after = snapshot(obj)
         if before != after: return True, f'subject changed by the check: {before} -> {after}'
+        # user-visible code outside the read-only protocol list: __bool__ of the subject (a recording subclass of the same builtin container)
+        for base in (dict, list, tuple, set, frozenset, collections.OrderedDict, collections.defaultdict, collections.deque):
+            if type(obj) is base:
+                log = []
+                Rec = type('Recording' + base.__name__.capitalize(), (base,), {'__bool__': lambda self: (log.append('__bool__'), len(self) > 0)[1]})
+                try: spy = Rec(obj.default_factory, obj) if base is collections.defaultdict else Rec(obj)
+                except Exception: break
+                real_verdict(spy, hint, conf, r)
+                if log: return True, f'the check called __bool__ of the checked {base.__name__} subclass instance {len(log)} time(s): user-visible code outside the read-only protocol list'
+                break
         return False, 'unchanged'
     raise NotImplementedError(kind)
 
